@@ -464,6 +464,62 @@ def run(ctx):
     except Exception as e:  # noqa
         ctx.notes.append("python -O child could not run: %r" % (e,))
     ctx.extra_cov["structural_faults_under_python_O"] = n_opt
+    # a valid file handed over as a stream that is not at offset 0 / cannot
+    # seek (a file appended to other data, a pipe), and header faults there
+    import gtirb as g_
+
+    class Pipe(io.RawIOBase):
+        def __init__(self, d):
+            self._d, self._i = d, 0
+
+        def readable(self):
+            return True
+
+        def seekable(self):
+            return False
+
+        def readinto(self, buf):
+            k = min(len(buf), len(self._d) - self._i)
+            buf[:k] = self._d[self._i:self._i + k]
+            self._i += k
+            return k
+
+    def positioned(d):
+        st = io.BytesIO(b"\x00prefix-of-11" [:11] + d)
+        st.seek(11)
+        return st
+
+    n_streams = 0
+    for label, data, spec in _FILES[:6]:
+        ref = g_.IR.load_protobuf_file(io.BytesIO(data))
+        for how, mk in (("stream-not-at-offset-0", positioned),
+                        ("unseekable-stream",
+                         lambda d: io.BufferedReader(Pipe(d)))):
+            n_streams += 1
+            try:
+                y = g_.IR.load_protobuf_file(mk(data))
+                if not (y.deep_eq(ref) and ref.deep_eq(y)):
+                    bad.append(("C17/valid-file-loads-differently:" + how,
+                                label, label, how, data.hex()))
+            except Exception as e:  # noqa
+                bad.append(("C17/valid-file-rejected:%s:%s"
+                            % (how, type(e).__name__), label, label, how,
+                            data.hex()))
+            for what, mut in (("version", data[:7] + bytes([PV + 1])
+                               + data[8:]),
+                              ("magic", b"GTIRC" + data[5:])):
+                n_streams += 1
+                try:
+                    g_.IR.load_protobuf_file(mk(mut))
+                    bad.append(("C17/faulty-header-accepted:" + how, label,
+                                label, how + " " + what, mut.hex()))
+                except ValueError:
+                    pass
+                except Exception as e:  # noqa
+                    bad.append(("C17/header-fault-wrong-exception:%s:%s"
+                                % (how, type(e).__name__), label, label,
+                                how + " " + what, mut.hex()))
+    ctx.extra_cov["stream_form_cases"] = n_streams
     # unchanged base files must load and be coherent
     for label, data, spec in _FILES:
         r = try_load(data, False)
